@@ -3,10 +3,12 @@ namespace sim {
 World *make_world_q();
 World *make_world_h();
 World *make_world_l();
+World *make_world_si();
 World *make_world(const std::string &name) {
   if (name == "Q") return make_world_q();
   if (name == "H") return make_world_h();
   if (name == "L") return make_world_l();
+  if (name == "SI") return make_world_si();
   return nullptr;
 }
 }  // namespace sim
